@@ -72,7 +72,7 @@ impl ExponentialFamily {
         let n = y.len();
         assert_eq!(n, mu.len());
         match self {
-            ExponentialFamily::Gaussian => norm(&vsub(y, mu)),
+            ExponentialFamily::Gaussian => norm(&vsub(y, mu)).powi(2),
             ExponentialFamily::Bernoulli => {
                 (0..n)
                     .map(|i| y[i] * mu[i].ln() + (1. - y[i]) * (1. - mu[i]).ln())
